@@ -3,6 +3,7 @@
   The table function ↦ schedule field is a spec literal here.
 -/
 import Proofs.Charge
+import Proofs.Charge2
 import Model.World
 import Facts.Generated
 namespace C16
@@ -164,12 +165,46 @@ theorem charged_updateAttributes (env : Env) (c : Call) (ctx ctx' : Ctx) (out : 
   (charge_esdtNFTUpdateAttributes env c ctx (by simpa [two64] using hg)
     (by intro a2 ha; have := hsum a2 ha; simpa [two64] using this)).elim h
 
--- FULL (remaining part, stated; decided today by the correspondence check on exact gas and by the charge oracle):
---   SaveKeyValue:  charge = SaveKeyValue + Σ_pairs (|k|+|v|)·PersistPerByte + Σ_changed pairs max(0,|v|−|old|)·StorePerByte
---   ESDTNFTTransfer (sender side): charge = ESDTNFTTransfer + |payload|·DataCopyPerByte
---   MultiESDTNFTTransfer (sender side, n tokens): charge = n·ESDTNFTMultiTransfer + Σ_NFT items |payload_i|·DataCopyPerByte
--- (`charged_*_partial` in the sense of the brief: the model computes exactly these formulas — see
---  Model/Fn.lean skvLoop / esdtNFTTransferSender / multiPayloadLoop — and C06.no_gas_creation bounds them.)
+/-- SaveKeyValue: own cost + PersistPerByte × (key + value) for every pair + StorePerByte × growth of the stored value
+    for every pair that changes it (`skvCost`), all priced by the schedule in force -/
+theorem charged_saveKeyValue (env : Env) (c : Call) (ctx ctx' : Ctx) (out : VMOutput)
+    (hb : env.gas.fn.saveKeyValue + skvCost env c.caller c.args.length ctx.accts c.args < 2 ^ 64)
+    (h : saveKeyValue env c ctx = .ok (out, ctx')) :
+    charge c.gas out = env.gas.fn.saveKeyValue + skvCost env c.caller c.args.length ctx.accts c.args :=
+  (charge_saveKeyValue env c ctx (by simpa [two64] using hb)).elim h
+
+/-- the first pair of `skvCost`, spelled out (the definition is the recursion over the pairs) -/
+theorem skvCost_pair (env : Env) (a : Bytes) (A : Accts) (k v : Bytes) (rest : List Bytes) (n : Nat) :
+    skvCost env a (n + 1) A (k :: v :: rest) =
+      (v.length + k.length) * env.gas.base.persistPerByte +
+      (if A.read a k = v then skvCost env a n A rest
+       else env.gas.base.storePerByte * (v.length - (A.read a k).length) + skvCost env a n (A.write a k v) rest) := rfl
+
+/-- ESDTNFTTransfer, sender side with the destination on another shard: own cost + DataCopyPerByte × length of the NFT
+    payload put on the wire (the encoding of the sender's whole entry with `Value := quantity`: C08.cross_shard_hop) -/
+theorem charged_nftTransfer_crossShard (env : Env) (c : Call) (ctx ctx' : Ctx) (out : VMOutput)
+    (hs : present env.nshards env.self c.caller = true)
+    (hx : ∀ d, c.args[3]? = some d → env.self ≠ shardOf env.nshards d)
+    (h : esdtNFTTransferSender env c ctx = .ok (out, ctx')) :
+    ∃ tok nb qb t, c.args[0]? = some tok ∧ c.args[1]? = some nb ∧ c.args[2]? = some qb ∧
+      decToken (ctx.accts.read c.caller (nftKey (esdtKeyPrefix ++ tok) (u64 (beNat nb)))) = some t ∧
+      charge c.gas out = env.gas.fn.esdtNFTTransfer +
+        u64 ((encToken { t with value := some (beNat qb : Int) }).length * env.gas.base.dataCopyPerByte) :=
+  (charge_nftTransferSender_crossShard env c ctx hs hx).elim h
+
+/-- MultiESDTNFTTransfer, sender side (any destination shard): own cost × number of tokens + DataCopyPerByte × encoded
+    length of every transferred token that carries metadata (`payloadCost`; what is put on the wire for each: C08.multi_payload) -/
+theorem charged_multiTransfer (env : Env) (c : Call) (ctx ctx' : Ctx) (out : VMOutput)
+    (hs : present env.nshards env.self c.caller = true)
+    (h : multiTransferSender env c ctx = .ok (out, ctx')) :
+    ∃ a1 toks, c.args[1]? = some a1 ∧ toks.length = u64 (beNat a1) ∧
+      charge c.gas out = u64 (u64 (beNat a1) * env.gas.fn.esdtNFTMultiTransfer) + payloadCost env toks :=
+  (charge_multiTransferSender env c ctx hs).elim h
+
+-- PARTIAL: the same-shard sender side of ESDTNFTTransfer also charges the payload component (for the merged entry it
+-- marshals: a quirk shared by model and code) — its closed form is computed by the model and decided by exact-gas
+-- correspondence; `toks` of `charged_multiTransfer` are the tokens returned by the item loop (their wire form:
+-- `C08.multi_item` / `multi_payload`), the equation itself does not name them.
 
 -- non-vacuity: a complete map of distinct primes is accepted; dropping one entry rejects it
 def sampleMap : GasMap :=
